@@ -15,6 +15,7 @@ struct GammaOpts {
   bool probes = true;      // entails() probes with constraints false in sigma
   bool point_meet = true;  // meet with the point must not be bottom
   bool refs = true;        // is_null_ref / allocation sites
+  bool bv = false;         // BV profile: only single-variable probes whose constants fit the signed width
 };
 
 struct GammaResult {
